@@ -29,6 +29,8 @@ RUNNER = r'''
 import sys                      # NOTHING else may be imported before the imports under test: the point of C01
 repo = sys.argv[1]; mods = sys.argv[2].split(",") if sys.argv[2] else []; resfile = sys.argv[3]
 sys.path.insert(0, repo)
+if len(sys.argv) > 4 and sys.argv[4] != "-":
+    sys.path.insert(0, sys.argv[4])      # a directory with a stand-in for an optional third-party module
 raised = []
 for m in mods:
     try:
@@ -103,6 +105,33 @@ MATRIX = [c for c in CONFIGS if c != "base"]
 NO_MODEL = {"-S"}      # start-up states the generated graph does not describe (it is measured under -I)
 
 
+OPT_KINDS = ["absent", "stub", "importerror", "notfoundother"]
+STUBDIR = os.path.join(core.SCRATCH, "imports", "stubs")
+STUB_SRC = {
+    "stub": "class _Any(object):\n    def __call__(self, *a, **k):\n        return self\n    def __getattr__(self, n):\n        return self\n"
+            "def __getattr__(name):\n    return _Any()\n",
+    "importerror": "raise ImportError('%(name)s is installed but broken (stand-in of the C01 check)')\n",
+    "notfoundother": "import _c01_missing_dependency_of_%(name)s\n",
+    "absent": "raise ModuleNotFoundError(\"No module named '%(name)s'\", name='%(name)s')\n",
+}
+
+
+def stub_dir(name, kind, exists):
+    """directory to put in front of sys.path so that optional module `name` presents itself as `kind`; None when
+    nothing is needed (the module is really absent on this host and `kind` is absent)"""
+    if kind == "absent" and not exists:
+        return None
+    d = os.path.join(STUBDIR, "%s-%s" % (name, kind))
+    path = os.path.join(d, name + ".py")
+    txt = STUB_SRC[kind] % {"name": name}
+    if not os.path.exists(path) or open(path).read() != txt:
+        os.makedirs(d, exist_ok=True)
+        with open(path + ".tmp%d" % os.getpid(), "w") as f:
+            f.write(txt)
+        os.replace(path + ".tmp%d" % os.getpid(), path)
+    return d
+
+
 def argv_for(cfg, body_args):
     c = CONFIGS[cfg]
     cmd = [PY] + c["flags"] + body_args
@@ -111,10 +140,11 @@ def argv_for(cfg, body_args):
     return cmd
 
 
-def command(repo, order, cfg="base"):
+def command(repo, order, cfg="base", stub=None):
     """the shell line that reproduces a case by hand"""
     c = CONFIGS[cfg]
-    body = "import sys; sys.path.insert(0, %r); " % repo + "; ".join("import " + m for m in order)
+    body = "import sys; sys.path.insert(0, %r); " % repo + ("sys.path.insert(0, %r); " % stub if stub else "") \
+        + "; ".join("import " + m for m in order)
     env = " ".join("%s=%s" % kv for kv in sorted(c.get("env", {}).items()))
     line = "%s%s %s -c %s" % ("env " + env + " " if env else "", PY, " ".join(c["flags"]), shlex.quote(body))
     if "cwd" in c:
@@ -137,7 +167,11 @@ class CHECK(core.Check):
             "whose two modules are both loaded by `import ioflo` itself only every 7th, of the others every 3rd: "
             "the non-core same-package pairs are proved in the kernel table). Generated: "
             "random orders of random subsets (2..all modules, with repeats and with the top-level package at a random "
-            "position). Host configurations (correspondence/oracle only): the package and, in thorough, every module "
+            "position). Optional third-party modules (sites taken from the generated graph: `import X` in a try with "
+            "handlers): for each X and each host variant absent / importable stand-in / stand-in raising ImportError / "
+            "stand-in raising ModuleNotFoundError for another module (stand-ins in a directory put in front of sys.path; "
+            "the model runs the same variant, `Graph.withOpt`): the package and the modules containing the try (all in "
+            "thorough, one rotating in quick). Host configurations (correspondence/oracle only): the package and, in thorough, every module "
             "alone, in quick 3 modules rotating with the seed, under each of: std streams closed (fd 0, 1, 2, all), -S, "
             "-E -s, no flags, -O, -OO, -B, cwd=/proc, C locale without UTF-8 mode. Thorough tier also: about 300 random ordered pairs and 100 random triples of modules that "
             "`import ioflo` does not load, across packages (the region where order independence is not proved); the synthetic tree harness/corpus/C01-synth (42 scenario packages exercising "
@@ -163,7 +197,10 @@ class CHECK(core.Check):
                "succeeds, and so does every sequence over {a, m} and the 55 core modules when the table relates a and m in "
                "both directions; C01_whole_tree_partial: all modules in one interpreter, in four total orders (name order, reverse, "
                "by sha1 of the name, by reversed name); C01_sweeps_same_state_partial: these four orders end in the SAME "
-               "interpreter state (same modules loaded, same names bound to the same modules in every module); C01_finished_namespaces_stable (generic importAll_frame): no sequence of imports changes "
+               "interpreter state (same modules loaded, same names bound to the same modules in every module); C01_optional_import_partial: for every optional third-party module X and every module m that "
+               "tries to import X inside a try: m imports cold on hosts where X is absent, importable, raises ImportError, "
+               "raises ModuleNotFoundError for another module (kernel table over the variant graphs; the handlers' classes "
+               "come from the AST); C01_finished_namespaces_stable (generic importAll_frame): no sequence of imports changes "
                "the namespace of a module that had finished initialising, except for binding loaded sub-modules on their "
                "package. NOT proved "
                "(only exercised by the ordered pairs and random orders of the correspondence): that the first import of a "
@@ -290,8 +327,9 @@ class CHECK(core.Check):
         return cases
 
     # ------------------------------------------------------------------ real side
-    def _run(self, order, synth=False, cfg="base"):
+    def _run(self, order, synth=False, cfg="base", opt=None):
         repo = SYNTH if synth else self.repo
+        stub = self.stub_for(opt) if opt else None
         c = CONFIGS[cfg]
         os.makedirs(RUNDIR, exist_ok=True)
         import threading
@@ -299,7 +337,7 @@ class CHECK(core.Check):
         env = {"PATH": os.environ.get("PATH", ""), "IOFLO_VERIF": "1"}
         env.update(c.get("env", {}))
         closing = "close" in c
-        p = subprocess.run(argv_for(cfg, ["-c", RUNNER, repo, ",".join(order), resfile]),
+        p = subprocess.run(argv_for(cfg, ["-c", RUNNER, repo, ",".join(order), resfile, stub or "-"]),
                            stdin=None if closing else subprocess.DEVNULL,
                            stdout=None if closing else subprocess.PIPE,
                            stderr=None if closing else subprocess.PIPE, text=True,
@@ -318,7 +356,7 @@ class CHECK(core.Check):
         self._missing = getattr(self, "_missing", {})
         for m, o, d, ms in zip(order, r["out"], r["detail"], r["missing"]):
             if d:
-                self._detail[(cfg, tuple(order), m)] = d
+                self._detail[(cfg if not opt else "opt:%s:%s" % tuple(opt), tuple(order), m)] = d
                 self._missing[(cfg, tuple(order), m)] = ms
         return r["out"] + [" ".join(state) if state else "-"]
 
@@ -341,7 +379,7 @@ class CHECK(core.Check):
         cases = list(cases)
         todo = [c for c in cases if core.case_key(c) not in self._cache]
         with concurrent.futures.ThreadPoolExecutor(16) as pool:
-            for c, out in zip(todo, pool.map(lambda c: self._run(c["order"], bool(c.get("synth")), c.get("cfg", "base")), todo)):
+            for c, out in zip(todo, pool.map(lambda c: self._run(c["order"], bool(c.get("synth")), c.get("cfg", "base"), c.get("opt")), todo)):
                 self._cache[core.case_key(c)] = out
         if todo:
             self.check_tree_unchanged()
@@ -350,12 +388,37 @@ class CHECK(core.Check):
     def impl(self, case):
         k = core.case_key(case)
         if k not in self._cache:
-            self._cache[k] = self._run(case["order"], bool(case.get("synth")), case.get("cfg", "base"))
+            self._cache[k] = self._run(case["order"], bool(case.get("synth")), case.get("cfg", "base"), case.get("opt"))
         return self._cache[k]
 
     # ------------------------------------------------------------------ model side
+    def optional(self):
+        return self.graph().get("optional", {})
+
+    def stub_for(self, opt):
+        name, kind = opt
+        return stub_dir(name, kind, bool(self.optional().get(name, {}).get("exists")))
+
+    def optional_cases(self, tier, dom):
+        """host variants of the optional third-party modules the tree tries to import inside try/except (the sites come
+        from the generated graph): the package and the modules that contain such a `try`"""
+        import random
+        seed = int(os.environ.get("VERIF_SEED", "0") or 0)
+        cases = []
+        for i, (name, d) in enumerate(sorted(self.optional().items())):
+            for j, kind in enumerate(OPT_KINDS):
+                if kind == "stub" and d["exists"]:
+                    continue
+                ms = [m for m in d["modules"] if m in dom]
+                if tier != "thorough" and ms:
+                    ms = [random.Random(seed * 100 + i * 10 + j).choice(ms)]
+                for m in (["ioflo"] if "ioflo" in dom else []) + ms:
+                    cases.append({"order": [m], "opt": [name, kind]})
+        return cases
+
     def requests(self, case):
-        return ["reset"] + ["load " + m for m in case["order"]] + ["state"]
+        first = "variant %s %s" % tuple(case["opt"]) if case.get("opt") else "variant -"
+        return [first] + ["load " + m for m in case["order"]] + ["state"]
 
     def model_post(self, case, replies):
         if case.get("cfg") in NO_MODEL:
@@ -427,6 +490,7 @@ class CHECK(core.Check):
         dom = self.domain()
         cases = [{"order": [m]} for m in dom]
         cases += self.matrix_cases(tier, dom)
+        cases += self.optional_cases(tier, dom)
         if tier == "thorough":
             # what `import ioflo` itself loads (taken from the real run): a pair of two such modules only repeats
             # "the second import is a no-op", so only every 7th of those pairs is kept
@@ -514,6 +578,17 @@ class CHECK(core.Check):
             return None       # these modules are meant to fail; only model == CPython is checked on them
         order = case["order"]
         cfg = case.get("cfg", "base")
+        if case.get("opt"):
+            name, kind = case["opt"]
+            for m, o in zip(order, out):
+                if o != "ok":
+                    d = getattr(self, "_detail", {}).get(("opt:%s:%s" % (name, kind), tuple(order), m), "")
+                    return ("import of %s failed on a host where the optional module %s is %s: %s [%s]; reproduce: %s" % (
+                        m, name, {"absent": "absent", "stub": "installed and importable", "importerror":
+                                  "installed but raises ImportError", "notfoundother":
+                                  "installed but lacks one of its own dependencies (ModuleNotFoundError)"}[kind],
+                        o, d, command(self.repo, order[:order.index(m) + 1], "base", self.stub_for(case["opt"]))))
+            return None
         if len(out) != len(order) + 1:
             return "harness: %s" % (out[:1],)
         for m, o in zip(order, out):
@@ -562,6 +637,8 @@ class CHECK(core.Check):
     def bucket(self, case, out):
         if case.get("synth"):
             return "synthetic-semantics-tree"
+        if case.get("opt"):
+            return "optional:%s:%s" % tuple(case["opt"]) + ("+failing-import" if any(o.startswith("ERR") for o in out[:-1]) else "")
         if case.get("cfg"):
             return "host-config:" + case["cfg"] + ("+failing-import" if any(o.startswith("ERR") for o in out[:-1]) else "")
         n = len(case["order"])
@@ -613,4 +690,5 @@ class CHECK(core.Check):
                                     for c in CONFIGS},
             "expected_absent_under_-S": sorted(getattr(self, "_absent", set())),
             "std_stream_uses_at_import": g.get("std_stream_uses", []),
+            "optional_modules": g.get("optional", {}),
         }
